@@ -189,7 +189,7 @@ func fetchMember(params ...any) (any, error) {
 	obj, name := params[0], params[1]
 	if key, ok := name.(string); ok && obj != nil {
 		rv := reflect.ValueOf(obj)
-		for rv.Kind() == reflect.Ptr && !rv.IsNil() {
+		for depth := 0; rv.Kind() == reflect.Ptr && !rv.IsNil() && depth < maxPtrDepth; depth++ {
 			rv = rv.Elem()
 		}
 		if rv.Kind() == reflect.Struct {
